@@ -2,6 +2,6 @@ SPECIFICATION Spec
 CONSTANTS
   Mode = "body"
   Quick = FALSE
-INVARIANTS ECD_OK Label_OK
+INVARIANTS ECD_OK Label_OK Block_OK
 CONSTRAINT Emit
 CHECK_DEADLOCK FALSE
